@@ -95,8 +95,10 @@ package sipsp
 //@   law[C03,C02] EXT(buf)
 //@   requires  bufOK(buf) && 0 <= offs && offs <= len(buf) && pcs != nil && csOK(pcs, offs)
 //@   modifies  *pcs
+//@   split csNest(pcs, offs)
 //@   loop 0 "for i < len(buf)"
 //@     invariant offs <= i && i <= len(buf) && csOK(pcs, i) && pcs.state != csFIN
+//@     invariant[C05] csNest(&pcs_old, offs0) ==> csNest(pcs, i)
 //@     invariant[C10] csNum(pcs, buf, i)
 //@     decreases len(buf) - i
 //@   requires[C10] csNum(pcs, buf, offs)
@@ -106,6 +108,8 @@ package sipsp
 //@   ensures[C10] "cseq-exact": err == ErrHdrOk && pcs_old.state != csFIN ==> pcs.CSeq.Len > 0 && allDigits(buf, int(pcs.CSeq.Offs), fend(pcs.CSeq)) &&
 //@                 uint64(pcs.CSeqNo) == satdec(buf, int(pcs.CSeq.Offs), fend(pcs.CSeq))
 //@   ensures[C10] "cseq-suspended": err == ErrHdrMoreBytes ==> csNum(pcs, buf, n)
+//@   ensures[C05,leaf] "cseq-nested": csNest(&pcs_old, offs) && pcs_old.state != csFIN && err == ErrHdrOk ==> csNested(pcs) && fend(pcs.V) <= n
+//@   ensures[C05,leaf] "cseq-suspended-nest": csNest(&pcs_old, offs) && err == ErrHdrMoreBytes ==> csNest(pcs, n)
 
 //@ func ParseUIntVal(buf, offs, pcl) (n, err)
 //@   law[C02] RES(buf, offs)
@@ -120,6 +124,7 @@ package sipsp
 //@   ensures   0 <= n && n <= len(buf)
 //@   ensures   err == ErrHdrOk || err == ErrHdrMoreBytes ==> offs <= n && clOK(pcl, n)
 //@   ensures   within(pcl.SVal, len(buf))
+//@   ensures[C05] "uint-inside-consumed": err == ErrHdrOk ==> within(pcl.SVal, n)
 //@   ensures[C10] "uint-exact": err == ErrHdrOk && pcl_old.state != clFIN ==> pcl.SVal.Len > 0 && allDigits(buf, int(pcl.SVal.Offs), fend(pcl.SVal)) &&
 //@                 uint64(pcl.UIVal) == satdec(buf, int(pcl.SVal.Offs), fend(pcl.SVal))
 //@   ensures[C10] "uint-suspended": err == ErrHdrMoreBytes ==> clNum(pcl, buf, n)
@@ -146,6 +151,7 @@ package sipsp
 //@   ensures   0 <= n && n <= len(buf)
 //@   ensures   err == ErrHdrOk || err == ErrHdrMoreBytes ==> offs <= n && ciOK(pcid, n)
 //@   ensures   within(pcid.CallID, len(buf))
+//@   ensures[C05] "callid-inside-consumed": err == ErrHdrOk ==> within(pcid.CallID, n)
 
 // ---- bytescase (dependency, verified from its source in the module cache) ----
 
@@ -235,7 +241,7 @@ package sipsp
 //@   split fbNest(buf, pfrom, offs, pfrom.soffs)
 //@   loop 0 "for i < len(buf)"
 //@     invariant offs <= i && i <= len(buf) && fbOK(pfrom, i, s)
-//@     invariant[C09] fbNest(buf, &pfrom_old, offs0, pfrom_old.soffs) ==> fbNest(buf, pfrom, i, s)
+//@     invariant[C09,C05] fbNest(buf, &pfrom_old, offs0, pfrom_old.soffs) ==> fbNest(buf, pfrom, i, s)
 //@     invariant pfrom.state != fbInit ==> (pfrom_old.state != fbInit && pfrom.V.Offs == pfrom_old.V.Offs) || (pfrom_old.state == fbInit && int(pfrom.V.Offs) >= offs)
 //@     invariant pfrom.state != fbFIN && pfrom_old.state != fbFIN && (pfrom.state == fbInit ==> pfrom_old.state == fbInit)
 //@     decreases len(buf) - i
@@ -245,12 +251,13 @@ package sipsp
 //@   ensures fbWithin(pfrom, len(buf))
 //@   ensures err == ErrHdrMoreValues ==> n > offs && multipleValsOk(h)
 //@   ensures err == ErrHdrOk || err == ErrHdrMoreValues ==> fbWithin(pfrom, n) && (pfrom.state == fbFIN || n == offs)
+//@   ensures[C05] "nameaddr-inside-consumed": err == ErrHdrOk || err == ErrHdrMoreValues ==> fbWithin(pfrom, n)
 //@   ensures pfrom_old.state == fbFIN ==> err == ErrHdrOk && n == offs && *pfrom == pfrom_old
 //@   ensures pfrom.state != fbInit && pfrom_old.state != fbFIN ==> (pfrom_old.state != fbInit && pfrom.V.Offs == pfrom_old.V.Offs) || (pfrom_old.state == fbInit && int(pfrom.V.Offs) >= offs)
 //@   ensures err == ErrHdrMoreBytes ==> pfrom.state != fbFIN
 //@   ensures err == ErrHdrOk && pfrom_old.state != fbFIN ==> n > offs
-//@   ensures[C09,leaf] "nested": fbNest(buf, &pfrom_old, offs, pfrom_old.soffs) && pfrom_old.state != fbFIN && pfrom.state == fbFIN && (err == ErrHdrOk || err == ErrHdrMoreValues) ==> fbNested(buf, pfrom)
-//@   ensures[C09,leaf] "suspended-nest": fbNest(buf, &pfrom_old, offs, pfrom_old.soffs) && err == ErrHdrMoreBytes ==> fbNest(buf, pfrom, n, pfrom.soffs)
+//@   ensures[C09,C05,leaf] "nested": fbNest(buf, &pfrom_old, offs, pfrom_old.soffs) && pfrom_old.state != fbFIN && pfrom.state == fbFIN && (err == ErrHdrOk || err == ErrHdrMoreValues) ==> fbNested(buf, pfrom)
+//@   ensures[C09,C05,leaf] "suspended-nest": fbNest(buf, &pfrom_old, offs, pfrom_old.soffs) && err == ErrHdrMoreBytes ==> fbNest(buf, pfrom, n, pfrom.soffs)
 
 //@ func ParseAllPAIValues(buf, offs, c) (n, err)
 //@   requires bufOK(buf) && 0 <= offs && offs <= len(buf) && c != nil && paiOK(c, offs)
@@ -341,7 +348,7 @@ package sipsp
 //@   ensures err == ErrHdrOk || err == ErrHdrMoreBytes ==> offs <= n && flOK(pl, n)
 //@   ensures flOK(pl, len(buf))
 //@   ensures err == ErrHdrOk || err == ErrHdrMoreBytes || err == ErrHdrBadChar || err == ErrHdrNoCR
-//@   requires[C08] pl.state == flInit ==> *pl == PFLine{}
+//@   requires[C08,C05] pl.state == flInit ==> *pl == PFLine{}
 //@   ensures[C08] "short": pl_old.state == flInit && len(buf)-offs < 14 ==> err == ErrHdrMoreBytes && n == offs
 //@   ensures[C08] "reply": pl_old.state == flInit && err == ErrHdrOk && isReplyStart(buf, offs) ==>
 //@             fieldIs(pl.Version, offs, offs+7) && fieldIs(pl.StatusCode, offs+8, offs+11) &&
@@ -359,6 +366,9 @@ package sipsp
 //@   ensures[C08] "reply-never-request-grammar": pl_old.state == flInit && isReplyStart(buf, offs) && err == ErrHdrBadChar ==>
 //@             !(isDigit(buf[offs+8]) && isDigit(buf[offs+9]) && isDigit(buf[offs+10]) && buf[offs+11] == ' ')
 //@   ensures[C08] "fin": err == ErrHdrOk ==> pl.state == flFIN
+//@   ensures[C05] "fline-order": pl_old.state == flInit && err == ErrHdrOk ==> (pl.Request() ==> int(pl.Method.Offs) == offs && fend(pl.Method) < int(pl.URI.Offs) &&
+//@                 fend(pl.URI) < int(pl.Version.Offs) && fend(pl.Version) < n) &&
+//@                 (!pl.Request() ==> int(pl.Version.Offs) == offs && fend(pl.Version) < int(pl.StatusCode.Offs) && fend(pl.StatusCode) < int(pl.Reason.Offs) && fend(pl.Reason) < n)
 //@   ensures[C08] "method": pl_old.state == flInit && err == ErrHdrOk && !isReplyStart(buf, offs) ==>
 //@             forall(m, 1, 15, bytesEq(pl.Method.Get(buf), Method2Name[m]) ==> int(pl.MethodNo) == m) &&
 //@             (pl.MethodNo != MOther ==> bytesEq(pl.Method.Get(buf), Method2Name[pl.MethodNo])) && pl.MethodNo >= 1 && pl.MethodNo <= MOther
